@@ -128,6 +128,11 @@ impl Scenario for SignSc {
                 }
             }
             "tags" => {}
+            "registry-scale" | "verify-scale" => {
+                p.set("g", (index % 2) as i64);
+                p.set("n", if tier == Tier::Thorough { (1 << 15) + 8 } else { (1 << 12) + 8 });
+                p.set("scheme", ((index / 2) % 3) as i64);
+            }
             "interop-long-lists" => {
                 let sizes: &[i64] = if tier == Tier::Thorough { &[(1 << 17) + 1, (1 << 18) + 3, (1 << 19) + 1, (1 << 20) + 1] } else { &[(1 << 17) + 1] };
                 p.set("g", (index % 2) as i64);
@@ -173,6 +178,7 @@ impl Scenario for SignSc {
             "relabel" => run_relabel(plan, lib, rec),
             "tags" => run_tags(plan, lib, rec),
             "interop-long-lists" => run_long_lists(plan, lib, rec),
+            "registry-scale" | "verify-scale" => run_scale(plan, lib, rec),
             "interop" => run_interop(plan, lib, rec),
             "registry" => run_registry(plan, lib, rec),
             _ => {}
@@ -724,6 +730,32 @@ fn run_relabel(plan: &Plan, lib: &dyn Lib, rec: &mut Rec) {
             }
         }
     }
+    // hand-made sign-crypt ciphertexts whose payload is NOT padded to 32 bytes (a sender who knows r makes them with
+    // compute_v and a signature): sealed with w under the tag of one scheme, presented under the label of another
+    if let (Some((tags, _)), Some(pkp)) = (own_tags(rec, lib, g), Pt::from_bytes(&a.pk)) {
+        let b = Bls::with_tags(sig_grp(g), tags.clone());
+        let r = refimpl::keygen(&x.bytes(9));
+        let sk_ref = refimpl::scalar_from_be(&a.sk);
+        for flen in [1usize, 2, 6, 31, 33] {
+            let mut frame = vec![(flen - 1) as u8];
+            frame.extend(x.bytes(flen - 1));
+            for from in 0u8..3 {
+                let tag_from = [&tags.basic, &tags.aug, &tags.pop_sig][from as usize];
+                let ct = refimpl::signcrypt_seal_framed(&b, &pkp, &frame, tag_from, &r);
+                for to in 0u8..3 {
+                    if to == from {
+                        continue;
+                    }
+                    let bytes = refimpl::layout::SignCryptFields { u: ct.u.to_bytes(), v: ct.v.clone(), w: ct.w.to_bytes(), scheme: to }.build();
+                    rec.fault("byz-relabel-scheme");
+                    let v = rec.call(lib, g, Op::ScValid, &[&bytes]);
+                    let d = rec.call(lib, g, Op::ScDecrypt, &[&bytes, &a.sk]);
+                    rec.expect("C05", "relabelled-ciphertext-rejected", v.flag() != Some(true) && !matches!(d.opt_value(), Some(Some(_))), || format!("SignCryptCiphertext hand-made frame of {} bytes {}->{} g={} | sealed under one scheme's tag, valid / opened under another label: valid={:?} decrypt={:?}", flen, scheme_name(from), scheme_name(to), g.name(), v.flag(), d.opt_value().map(|o| o.is_some())));
+                }
+            }
+        }
+        let _ = sk_ref;
+    }
     for from in 0u8..3 {
         let Some(sig) = rec.call(lib, g, Op::Sign, &[&a.sk, &[from], &msg]).first().map(|v| v.to_vec()) else { continue };
         let ct = rec.call(lib, g, Op::SignCrypt, &[&a.pk, &[from], &msg]).first().map(|v| v.to_vec());
@@ -870,12 +902,69 @@ fn run_relabel(plan: &Plan, lib: &dyn Lib, rec: &mut Rec) {
 // ------------------------------------------------------------------------------------------
 // C03
 // ------------------------------------------------------------------------------------------
+/// C09 / C02: one process accepts the proofs (signatures over one message) of N distinct keys, one after the other — a
+/// registrar, a validator set — and then offers early keys the proof of the key registered 2^k (-1, +0, +1) registrations
+/// later, for every k: what a bounded table of accepted material hands out after its slots were recycled. N = 2^12 + 8
+/// (quick), 2^15 + 8 (thorough).
+fn run_scale(plan: &Plan, lib: &dyn Lib, rec: &mut Rec) {
+    let g = grp_of(plan.get("g"));
+    let n = plan.get("n").clamp(16, 1 << 17) as usize;
+    let pop = plan.class == "registry-scale";
+    let prop = if pop { "C09" } else { "C02" };
+    let scheme = [plan.get("scheme") as u8];
+    let msg = b"the one message every key signs".to_vec();
+    let mut pks: Vec<Vec<u8>> = Vec::with_capacity(n);
+    let mut proofs: Vec<Vec<u8>> = Vec::with_capacity(n);
+    for i in 0..n {
+        let sk = refimpl::scalar_to_be(&refimpl::keygen(&[&plan.seed.to_le_bytes()[..], &(i as u64).to_le_bytes()[..]].concat()));
+        let Some(pk) = rec.call(lib, g, Op::PublicKey, &[&sk]).first().map(|v| v.to_vec()) else { return };
+        let made = if pop { rec.call(lib, g, Op::Pop, &[&sk]) } else { rec.call(lib, g, Op::Sign, &[&sk, &scheme, &msg]) };
+        let Some(pr) = made.first().map(|v| v.to_vec()) else { return };
+        let ok = if pop { rec.call(lib, g, Op::PopVerify, &[&pr, &pk]) } else { rec.call(lib, g, Op::Verify, &[&pr, &pk, &msg]) };
+        rec.expect(prop, if pop { "honest-pop-verifies" } else { "honest-signature-verifies-control" }, ok.is_ok(), || format!("scale registration #{} of {} g={} | the key's own {} is refused: {:?}", i, n, g.name(), if pop { "proof of possession" } else { "signature" }, ok.kind()));
+        pks.push(pk);
+        proofs.push(pr);
+    }
+    rec.case(&[if pop { 9 } else { 2 }, g as u64, n as u64, 4242], true);
+    let mut k = 1usize;
+    let mut offered = 0u64;
+    while k < n {
+        for d in [k.saturating_sub(1), k, k + 1] {
+            for i in [0usize, 1, 2, 5, 64] {
+                let j = i + d;
+                if d == 0 || j >= n {
+                    continue;
+                }
+                offered += 1;
+                let o = if pop { rec.call(lib, g, Op::PopVerify, &[&proofs[j], &pks[i]]) } else { rec.call(lib, g, Op::Verify, &[&proofs[j], &pks[i], &msg]) };
+                rec.expect(prop, if pop { "accepted-iff-made-by-that-key" } else { "other-key-rejected" }, !o.is_ok(), || format!("scale after {} registrations g={} | key #{} accepts the {} of key #{} (registered {} later)", n, g.name(), i, if pop { "proof of possession" } else { "signature" }, j, d));
+            }
+        }
+        k *= 2;
+    }
+    // and the early keys still accept their own
+    for i in [0usize, 1, 2, 5, 64] {
+        if i < n {
+            let o = if pop { rec.call(lib, g, Op::PopVerify, &[&proofs[i], &pks[i]]) } else { rec.call(lib, g, Op::Verify, &[&proofs[i], &pks[i], &msg]) };
+            rec.expect(prop, if pop { "honest-pop-verifies" } else { "honest-signature-verifies-control" }, o.is_ok(), || format!("scale after {} registrations g={} | key #{} no longer accepts its own", n, g.name(), i));
+        }
+    }
+    rec.sample(|| format!("{} keys registered in one process, {} cross offers, g={}", n, offered, g.name()));
+}
+
 /// C03: the draft's Aggregate over VERY long lists (2^17 + 1 and more signatures of two signers, alternating): the sum
 /// is a·s1 + b·s2 whatever way the library walks the list (chunks, lanes, worker threads).
 fn run_long_lists(plan: &Plan, lib: &dyn Lib, rec: &mut Rec) {
+    let mut xs = Xo::derive(plan.seed, &[0x10C6]);
+    // the plan's size (2^k + small) and three ORDINARY sizes (no power-of-two shape): drawn from 2048..12000, 12000..40000
+    let sizes = [plan.get("n").clamp(3, 1 << 21) as u64, xs.range(2048, 12000), xs.range(2048, 12000), xs.range(12000, 40000)];
+    for n in sizes {
+        long_list(plan, lib, rec, n);
+    }
+}
+fn long_list(plan: &Plan, lib: &dyn Lib, rec: &mut Rec, n: u64) {
     let g = grp_of(plan.get("g"));
     let b = Bls::draft(sig_grp(g));
-    let n = plan.get("n").clamp(3, 1 << 21) as u64;
     let scheme = if plan.get("scheme") == 2 { Scheme::Pop } else { Scheme::Basic };
     let (k1, k2) = (refimpl::keygen(&[1, (plan.seed & 0xff) as u8]), refimpl::keygen(&[2, (plan.seed & 0xff) as u8]));
     let msg = b"one message, very many signatures".to_vec();
